@@ -14,5 +14,11 @@ Example C11_example :
   let s := run cfg2 tr_cancel in clean s /\ num_started s = 3 /\ n_forgotten s = 1 /\ regs s = [1; 2].
 Proof. vm_compute. repeat split; reflexivity. Qed.
 
+(** Monitor soundness: the extracted monitor for C11 (both clauses) never rejects a stream of the model. *)
+From TP Require PMonSound11_C11 PObs PMon.
+Theorem mon_sound : forall c tr, clean (run c tr) -> PMon.ok_C11 c (PObs.observe c tr) = true.
+Proof. exact PMonSound11_C11.mon_C11_sound. Qed.
+
 Print Assumptions C11.
 Print Assumptions C11_never_reused.
+Print Assumptions mon_sound.
